@@ -552,6 +552,31 @@ def rw_no_panic(text, log):
     return text
 
 
+def rw_log_errno(text, log):
+    """R28 (automatic): in a function that reads `errno` (`last_os_error`) a log macro (`debug!`, `info!`, `warn!`, `error!`, `trace!`,
+    `print*!`, `eprint*!`) is not erased but becomes `log_line()`, a stand-in that may replace errno (formatting a `File` readlinks under
+    -vv, the write to stdout/stderr can fail): a log line between a raw libc call and the reading of its errno loses the kernel's answer."""
+    if 'last_os_error' not in text:
+        return text
+    n = 0
+    while True:
+        st = rtok.sig(rtok.lex(text))
+        hit = None
+        for i in range(len(st) - 2):
+            if st[i][0] == 'ident' and st[i][1] in ('debug', 'info', 'warn', 'error', 'trace', 'print', 'println', 'eprint', 'eprintln') \
+                    and st[i + 1][1] == '!' and st[i + 2][1] in ('(', '[', '{') and (i == 0 or st[i - 1][1] not in ('.', '::', '_')):
+                hit = i
+                break
+        if hit is None:
+            break
+        close = rtok.match_close(st, hit + 2)
+        text = _replace_spans(text, [(st[hit][2], st[close][3], 'log_line()')])
+        n += 1
+    if n:
+        log.append('R28 %d log macro(s) in an errno-reading function -> log_line() (may replace errno)' % n)
+    return text
+
+
 def rw_matches(text, log):
     """R25 (automatic): `matches!(E, P)` / `matches!(E, P if G)` -> `(match E { P => true, _ => false })` (std's definition; the arguments of a
     std macro are opaque to Verus, so a call taking the world token inside it could not be elaborated)."""
@@ -1402,6 +1427,7 @@ def build_fn(fs, repo, effectful, table_keys, canary=False):
     text = rw_matches(text, log)
     text = rw_ufcs_ext(text, log)
     text = rw_no_panic(text, log)
+    text = rw_log_errno(text, log)
     text = rw_std_prefix(text, log)
     text = rw_loop_break_head(text, log)
     if fs.external and getattr(fs, 'skipped', False):
